@@ -546,6 +546,17 @@ impl InterfaceInner {
         ipv6_repr: Ipv6Repr,
         icmp_repr: Icmpv6Repr<'icmp>,
     ) -> Option<Packet<'frame>> {
+        // RFC 4443 2.4 (e.3): no Destination Unreachable or Time Exceeded message is
+        // ever sent in response to a packet destined to a multicast address.
+        if ipv6_repr.dst_addr.is_multicast()
+            && matches!(
+                icmp_repr,
+                Icmpv6Repr::DstUnreachable { .. } | Icmpv6Repr::TimeExceeded { .. }
+            )
+        {
+            return None;
+        }
+
         let src_addr = ipv6_repr.dst_addr;
         let dst_addr = ipv6_repr.src_addr;
 
